@@ -20,7 +20,9 @@ Two ties between the theorems of `PyribsProofs/C09.lean` and the current source:
       (iii) one seed changed -- for a spawned child seed: only the last child index, i.e.
             the sibling of the same parent    -> the first batch that component emits differs;
       (iv)  emitters given ONE shared es_kwargs dict object vs. separate equal dicts
-                                              -> bit-identical; the caller's dict is unchanged.
+                                              -> bit-identical; the caller's dict is unchanged;
+      (v)   k-means CVT archives (built with 8 OpenMP threads allowed, >= 1000 samples in the
+            archives stratum) constructed 6 more times in the process -> centroids bitwise equal.
     Around every library call the states of `np.random` and `random` are compared
     before / after.
 
@@ -112,6 +114,9 @@ TRUSTED_EXTRA = [
 ]
 
 D = 4  # solution_dim
+TIGHT_BOUNDS = (-0.35, 0.65)  # around every x0 used (0.1 .. 0.5), narrow against sigma0 = 0.5: most samples are
+#                               out of bounds, so the strategies' resampling loops run in every ask()
+KMEANS_REBUILDS = 6  # extra constructions of a k-means archive per case (besides the runs of the case)
 CVT_METHODS = ["kmeans", "random", "sobol", "scrambled_sobol", "halton", "custom"]
 ES_NAMES = ["cma_es", "sep_cma_es", "lm_ma_es", "openai_es", "pycma_es"]
 RANKERS = ["imp", "2imp", "rd", "2rd", "obj", "2obj"]
@@ -238,6 +243,14 @@ def make_archive(spec, seed, sibling=False):
             return CVTArchive(solution_dim=D, cells=12, ranges=rng2, seed=s, custom_centroids=cent, **kw)
         if m == "kmeans" and spec.get("kmkw") is not None:
             kw["k_means_kwargs"] = copy.deepcopy(spec["kmkw"])  # user options; random_state stays the default
+        if m == "kmeans":
+            # the user's process has as many OpenMP threads as cores (`./check` pins OMP_NUM_THREADS=1 for speed;
+            # threadpoolctl raises the limit at run time): scikit-learn's k-means then sums over the samples in a
+            # scheduling-dependent order, visible in the last bits from a few hundred samples on
+            from threadpoolctl import threadpool_limits
+            with threadpool_limits(limits=8, user_api="openmp"):
+                return CVTArchive(solution_dim=D, cells=12, ranges=rng2, seed=s, centroid_method=m,
+                                  samples=int(spec.get("samples", 160)), **kw)
         return CVTArchive(solution_dim=D, cells=12, ranges=rng2, seed=s, centroid_method=m, samples=160, **kw)
     if kind == "sliding":
         return SlidingBoundariesArchive(solution_dim=D, dims=[5, 5], ranges=rng2, seed=s, remap_frequency=9,
@@ -319,7 +332,7 @@ def make_emitter(spec, archive, seed, k, sibling=False, es_kwargs=None):
         return _spy(E.EvolutionStrategyEmitter)(
             archive, x0=x0, sigma0=0.5, ranker=ranker_arg(spec), es=spec["es"], selection_rule=spec.get("sel", "filter"),
             restart_rule=spec.get("restart", "no_improvement"), batch_size=spec.get("batch", 4), seed=s,
-            es_kwargs=es_kwargs)
+            es_kwargs=es_kwargs, bounds=[tuple(TIGHT_BOUNDS)] * D if spec.get("bounds") == "tight" else None)
     if kind == "ga":
         return _spy(E.GradientArborescenceEmitter)(
             archive, x0=x0, sigma0=0.5, lr=0.1, ranker=ranker_arg(spec), es=spec["es"],
@@ -659,9 +672,11 @@ def describe(case):
             return "/child" + "".join(f"[{i}of{n}]" for n, i in spec["child"])
         return "/" + k
 
-    ar = a["kind"] + (f"/{a['method']}" if a["kind"] == "cvt" else "") + sk(a)
+    ar = a["kind"] + (f"/{a['method']}" if a["kind"] == "cvt" else "") + sk(a) + \
+        (f"/{a['samples']} samples" if a.get("samples", 160) != 160 else "")
     ems = ",".join(e["kind"] + (f"[{e['es']},{e['ranker']}{':' + e['rform'] if e.get('rform', 'abbr') != 'abbr' else ''}]" if e["kind"] in ("es", "ga") else "")
-                   + (sk(e) if seed_kind(e) != "int" else "") for e in case["emitters"])
+                   + (sk(e) if seed_kind(e) != "int" else "") + ("/tight-bounds" if e.get("bounds") == "tight" else "")
+                   for e in case["emitters"])
     kw = ""
     if any(e.get("eskw") is not None for e in case["emitters"]):
         kw = " | es_kwargs=" + ";".join(json.dumps(e["eskw"]) if e.get("eskw") is not None else "-"
@@ -706,6 +721,20 @@ def run_case(case, ctx=None):
         return Failure("oracle", f"a valid seeded pipeline was refused with {oa.error.split(':')[0]} (after "
                                  f"{last}) :: {what}", detail=oa.error)
     cnt("i:double-run-identical")
+    # (v) k-means centroids: the same archive built again and again in this process, bitwise
+    a = case["archive"]
+    if a["kind"] == "cvt" and a["method"] == "kmeans":
+        ref = next((x for x in oa.items if x[0] == "centroids"), None)
+        with warnings.catch_warnings():
+            warnings.simplefilter("ignore")
+            for rep in range(KMEANS_REBUILDS):
+                arch = make_archive(a, a["seed"])
+                if ref is not None and digest(arch.centroids) != ref[1]:
+                    return Failure("oracle", f"CVTArchive k-means centroids differ between two constructions with the "
+                                             f"same seed in one process (construction {rep + 3} of "
+                                             f"{KMEANS_REBUILDS + 2}, {a.get('samples', 160)} samples, 8 OpenMP threads "
+                                             f"allowed) :: {what}", detail=f"{ref[2]} vs {excerpt(arch.centroids)}")
+        cnt("v:kmeans-rebuilt-identical" + ("(>=1000 samples)" if a.get("samples", 160) >= 1000 else ""))
     # (iv) one es_kwargs dict object shared by several emitters == separate equal dicts
     if shares_es_kwargs(case):
         od, _, _ = run_pipeline(case, "d")
@@ -884,7 +913,7 @@ def seed_fields(rng, sk=None):
     return out
 
 
-def archive_spec(rng, kind=None, method=None, sk=None):
+def archive_spec(rng, kind=None, method=None, sk=None, big=None):
     kind = kind or rng.choice(["grid", "cvt", "sliding", "proximity"])
     if kind == "cvt":
         method = method or rng.choice(CVT_METHODS)
@@ -894,6 +923,8 @@ def archive_spec(rng, kind=None, method=None, sk=None):
         spec["kd"] = rng.random() < 0.7
         if method == "kmeans":
             spec["kmkw"] = rng.choice([None, {"max_iter": 20, "tol": 1e-5}, {"n_init": 2}])
+            spec["samples"] = (rng.choice([1000, 2500, 6000]) if big or (big is None and rng.random() < 0.5)
+                               else 160)
     elif kind == "grid":
         spec["lr"] = rng.choice([None, None, 0.5])
     elif kind == "proximity":
@@ -911,7 +942,7 @@ def simple_emitter(rng, kind=None, sk=None):
     return e
 
 
-def es_emitter(rng, archive_kind, es=None, ranker=None, kind="es", sk=None):
+def es_emitter(rng, archive_kind, es=None, ranker=None, kind="es", sk=None, tight=None):
     e = {"kind": kind, **seed_fields(rng, sk),
          "es": es or rng.choice(ES_NAMES), "batch": rng.choice([4, 6]),
          "sel": rng.choice(["filter", "mu"]), "restart": rng.choice(["no_improvement", "basic", 2])}
@@ -925,6 +956,12 @@ def es_emitter(rng, archive_kind, es=None, ranker=None, kind="es", sk=None):
         e["norm"] = rng.random() < 0.7
     if rng.random() < 0.3:  # documented evolution-strategy options through es_kwargs (a dict of its own)
         e["eskw"] = rng.choice(ES_KWARGS[e["es"]])
+    # (not pycma_es: when a bounded pycma emitter restarts from an archive elite that another emitter put outside
+    # its bounds, pycma's BoundTransform raises ValueError -- reported, outside this property)
+    if kind == "es" and e["es"] != "pycma_es" and (tight or (tight is None and rng.random() < 0.3)):
+        e["bounds"] = "tight"
+        if e["es"] == "openai_es":
+            e["eskw"] = {"mirror_sampling": False}  # documented: bounds need mirror_sampling=False in OpenAI-ES
     return e
 
 
@@ -982,7 +1019,7 @@ def strata(ctx):
         kind, method, sk = cyc_arch.next(rng)
         n_iter = rng.randint(2, 4 * L)
         c = base_case(rng, n_iter)
-        c["archive"] = archive_spec(rng, kind, method, sk)
+        c["archive"] = archive_spec(rng, kind, method, sk, big=True)  # k-means: >= 1000 samples in this stratum
         c["emitters"] = [simple_emitter(rng) for _ in range(rng.randint(1, 2))]
         c["change"] = 0 if rng.random() < 0.6 else rng.randrange(4)
         c["sched"] = rng.choice(["plain", "plain", "bandit"])
@@ -996,8 +1033,12 @@ def strata(ctx):
         c["archive"] = archive_spec(rng, rng.choice(["grid", "grid", "cvt", "sliding", "proximity"]))
         sk = SEED_KINDS[rot["es"] % 3]
         rot["es"] += 1
-        c["emitters"] = [es_emitter(rng, c["archive"]["kind"], es, ranker, sk=sk)]
-        if rng.random() < 0.5:
+        i = rot["es"]
+        c["emitters"] = [es_emitter(rng, c["archive"]["kind"], es, ranker, sk=sk, tight=True if i % 2 == 1 else None)]
+        if i % 3 == 1:
+            # every third case: the native CMA-ES (numba-compiled sampling helpers) under tight bounds
+            c["emitters"].append(es_emitter(rng, c["archive"]["kind"], "cma_es", tight=True))
+        elif rng.random() < 0.5:
             c["emitters"].append(es_emitter(rng, c["archive"]["kind"]))
         # run (iii): with a child seed the main emitter gets its sibling; otherwise any component's seed changes
         c["change"] = 1 if sk == "child" else rng.randrange(1, 4)
@@ -1028,13 +1069,15 @@ def strata(ctx):
         c["archive"] = archive_spec(rng)
         k = c["archive"]["kind"]
         pool = []
-        for _ in range(rng.randint(2, 3)):
-            pool.append(es_emitter(rng, k) if rng.random() < 0.5 else simple_emitter(rng))
+        # a bandit pool is larger than what is active: at least num_active + 2 emitters, so that the scheduler
+        # has to choose among several never-selected ones
+        for _ in range(rng.randint(4, 5) if sched == "bandit" else rng.randint(2, 3)):
+            pool.append(es_emitter(rng, k) if rng.random() < 0.4 else simple_emitter(rng))
         c["emitters"] = pool
         if k == "proximity":
             add_mode = "batch"  # ProximityArchive.add_single returns length-1 arrays: the scheduler rejects them
         c["sched"], c["add_mode"], c["result_archive"] = sched, add_mode, ra
-        c["num_active"] = rng.randint(1, len(pool))
+        c["num_active"] = rng.randint(1, len(pool) - 2) if sched == "bandit" else len(pool)
         return c
 
     kw_es = ["pycma_es", "lm_ma_es", "openai_es", "cma_es", "sep_cma_es", "pycma_es", "openai_es"]
@@ -1053,7 +1096,7 @@ def strata(ctx):
         n = rng.randint(2, 3)
         ems = []
         for _ in range(n):
-            e = es_emitter(rng, c["archive"]["kind"], es, kind=kind)
+            e = es_emitter(rng, c["archive"]["kind"], es, kind=kind, tight=False)
             e["eskw"] = kw
             e["restart"] = rng.choice([1, 2, 2, "basic"])  # restarts rebuild the strategy from its stored options
             ems.append(e)
